@@ -1018,7 +1018,7 @@ pub fn real_answer(tm: &TypeMap, req: &Sexp) -> Sexp {
             let positional = matches!(&bb.kind, BKind::Attached { ty, .. } if ty == "QLayout");
             let found = locate(ui, &doc, &bb).is_some();
             let special = matches!(bb.lhs.as_str(), "actions" | "model" | "separator");
-            if (found && !positional && (!special || ec)) || ((consumed_pseudo || (positional && found && ec)) && !diag_subjects.contains(&b.5)) {
+            if (found && !positional && (!special || (ec && !diag_subjects.contains(&b.5)))) || ((consumed_pseudo || (positional && found && ec)) && !diag_subjects.contains(&b.5)) {
                 embedded.insert(bb.id);
             }
         }
